@@ -188,9 +188,18 @@ def main(tier='quick'):
         raise Machinery('Negotiation.tla fails TLC: %s %s' % (mc.violated, mc.errors[:2]))
     cases, metas = [], []
     ts_variants = [[N.TS_UID['T1']], [N.TS_UID['T2'], N.TS_UID['T1']], [N.TS_UID['T1'], N.TS_UID['T2'], N.TS_UID['T3']]]
-    for hist in histories(tier, rng):
+    # transfer syntax UIDs one of which is a prefix of another (as Implicit VR LE is of both Explicit ones), in entities
+    # whose syntax sets iterate in every order: the peer's choice must be bound exactly as it was made
+    base = N.TS_UID['T1']
+    prefix_plans = []
+    for k in range(1, 13 if tier == 'quick' else 40):
+        prefix_plans.append(([('scu', 2)], [base, '%s.%d' % (base, k)]))
+        if k % 3 == 0:
+            prefix_plans.append(([('scu', 2)], [base, '%s.%d' % (base, k), '%s.%d.9' % (base, k)]))
+    plans = [(hist, None) for hist in histories(tier, rng)] + prefix_plans
+    for hist, forced_ts in plans:
         total = sum(h[1] - (h[2] if len(h) > 2 else 0) for h in hist if h[0] != 'assoc')
-        ts_list = ts_variants[total % 3]
+        ts_list = forced_ts or ts_variants[total % 3]
         ids = [1 + 2 * i for i in range(total)]
         for reply in reply_patterns(ids, ts_list, tier, rng):
             own_max = rng.choice([0, 16384, 65536, 2 ** 32 - 1])
